@@ -19,6 +19,8 @@ func (c *Conn) getBigDeflater() *bigDeflater {
 	if c.isServer {
 		return c.config.bdPool.Get()
 	}
+	// A client has a single flate.Writer, shared with deflater.Compress (which Broadcast calls without c.mu).
+	c.deflater.cpsLocker.Lock()
 	return (*bigDeflater)(c.deflater.cpsWriter)
 }
 
@@ -27,7 +29,9 @@ func (c *Conn) getBigDeflater() *bigDeflater {
 func (c *Conn) putBigDeflater(d *bigDeflater) {
 	if c.isServer {
 		c.config.bdPool.Put(d)
+		return
 	}
+	c.deflater.cpsLocker.Unlock()
 }
 
 // 拆分io.Reader为小切片
